@@ -2,6 +2,7 @@ package main
 
 import (
 	"fmt"
+	"go/ast"
 	"runtime"
 	"go/constant"
 	"go/token"
@@ -55,6 +56,7 @@ type FnRun struct {
 	splitVals map[string]int64
 	props    []string
 	nobl     int
+	locals   map[string][]ssa.Value // source names of locals (from DebugRef), candidates in block order
 }
 
 // VerifyFunction generates all obligations of one function under its contract.
@@ -130,6 +132,7 @@ func (ex *Exec) verifyCase(fn *ssa.Function, key string, ctr *Contract, cs *Case
 	}
 	fr.analyzeLoops()
 	fr.numberInstrs()
+	fr.collectLocals()
 	// names are per function: reset the name-keyed tables
 	ex.lazyObjs = map[string]*Obj{}
 	ex.varFacts = map[string]*Term{}
@@ -536,6 +539,15 @@ func (fr *FnRun) runFrom(st *State, b *ssa.BasicBlock, prev *ssa.BasicBlock, dep
 
 func (fr *FnRun) runBlock(st *State, b *ssa.BasicBlock, prev *ssa.BasicBlock, depth int, k retK) {
 	fn := b.Parent()
+	if len(st.guards) > 0 {
+		var keep []*loopGuard
+		for _, g := range st.guards {
+			if g.li.head.Parent() != fn || g.li.blocks[b] {
+				keep = append(keep, g)
+			}
+		}
+		st.guards = keep
+	}
 	for {
 		fr.paths++
 		if fr.paths > 200000 {
@@ -797,4 +809,85 @@ func wrapInternal(r interface{}) interface{} {
 	buf := make([]byte, 1<<16)
 	n := runtime.Stack(buf, false)
 	return &internalErr{msg: fmt.Sprint(r), where: firstFrames(string(buf[:n]))}
+}
+
+// collectLocals maps source-level local names to the SSA values that carry them.
+func (fr *FnRun) collectLocals() {
+	fr.locals = map[string][]ssa.Value{}
+	for _, b := range fr.fn.Blocks {
+		for _, in := range b.Instrs {
+			d, ok := in.(*ssa.DebugRef)
+			if !ok || d.IsAddr {
+				continue
+			}
+			id, ok := d.Expr.(*ast.Ident)
+			if !ok {
+				continue
+			}
+			dup := false
+			for _, v := range fr.locals[id.Name] {
+				if v == d.X {
+					dup = true
+				}
+			}
+			if !dup {
+				fr.locals[id.Name] = append(fr.locals[id.Name], d.X)
+			}
+		}
+	}
+}
+
+// bindLocals adds to vars every local name whose current value is determined:
+// among the candidate values defined on this path, the one defined last in
+// dominance order (straight-line reassignment); ambiguous names are skipped.
+func (fr *FnRun) bindLocals(st *State, vars map[string]Val) {
+	for name, cands := range fr.locals {
+		if _, taken := vars[name]; taken {
+			continue
+		}
+		var defined []ssa.Value
+		ambiguous := false
+		for _, c := range cands {
+			if _, isPhi := c.(*ssa.Phi); isPhi {
+				ambiguous = true
+				continue
+			}
+			if _, ok := st.vals[c]; ok {
+				defined = append(defined, c)
+			}
+		}
+		if ambiguous || len(defined) == 0 {
+			continue
+		}
+		best := defined[0]
+		ok := true
+		for _, c := range defined[1:] {
+			switch {
+			case defBefore(best, c):
+				best = c
+			case defBefore(c, best):
+			default:
+				ok = false
+			}
+		}
+		if ok {
+			vars[name] = st.vals[best]
+		}
+	}
+}
+
+// defBefore: a's definition strictly precedes b's in dominance order.
+func defBefore(a, b ssa.Value) bool {
+	ia, ok1 := a.(ssa.Instruction)
+	ib, ok2 := b.(ssa.Instruction)
+	if !ok1 {
+		return ok2 // parameters precede instructions
+	}
+	if !ok2 {
+		return false
+	}
+	if ia.Block() == ib.Block() {
+		return indexOf(ia.Block().Instrs, ia) < indexOf(ib.Block().Instrs, ib)
+	}
+	return ia.Block().Dominates(ib.Block())
 }
